@@ -382,6 +382,41 @@ pub fn presentation_validation(cex: &Value) -> Result<String, String> {
       }
       expect(name, run(&sign_jwt(&v.to_string(), Some(&kid), None, &method_key(HOLDER, "#auth")), &holder, &base()), want);
     }
+    // issuance carried only in iat: it is what the bound applies to and what is handed back
+    {
+      let mut v: serde_json::Value = serde_json::from_str(&claims).unwrap();
+      v.as_object_mut().unwrap().remove("nbf");
+      v["iat"] = serde_json::json!(t0 + 50);
+      let jwt = sign_jwt(&v.to_string(), Some(&kid), None, &method_key(HOLDER, "#auth"));
+      expect("[dates] iat only, after the latest-issuance bound", run(&jwt, &holder, &base()), false);
+      if let Ok(d) = expect("[dates] iat only, within the bound", run(&jwt, &holder, &base().latest_issuance_date(ts(t0 + 50))), true) {
+        if d.issuance_date != Some(ts(t0 + 50)) {
+          log.borrow_mut().push(format!("[dates] iat-only token: issuance date handed back is {:?}", d.issuance_date));
+        }
+      }
+      // nbf and iat both present and different: nbf is the issuance date
+      let mut v: serde_json::Value = serde_json::from_str(&claims).unwrap();
+      v["nbf"] = serde_json::json!(t0 + 50);
+      v["iat"] = serde_json::json!(t0 - 50);
+      let jwt = sign_jwt(&v.to_string(), Some(&kid), None, &method_key(HOLDER, "#auth"));
+      expect("[dates] nbf after the bound although iat is before it", run(&jwt, &holder, &base()), false);
+    }
+    // a configured method id is matched with its DID: a foreign-DID id with the fragment of an own method does not select the own method
+    {
+      let vo = JwsVerificationOptions::default();
+      let foreign_same_frag = DIDUrl::parse(format!("{OTHER}#auth")).unwrap();
+      expect(
+        "[typed-query] configured method id of a foreign DID sharing the fragment of the signing method",
+        run(&sign_jwt(&claims, None, None, &method_key(HOLDER, "#auth")), &holder, &base().presentation_verifier_options(vo.clone().method_id(foreign_same_frag))),
+        false,
+      );
+      let own = DIDUrl::parse(format!("{HOLDER}#auth")).unwrap();
+      expect(
+        "[typed-query] configured method id of the signing method",
+        run(&sign_jwt(&claims, None, None, &method_key(HOLDER, "#auth")), &holder, &base().presentation_verifier_options(vo.clone().method_id(own))),
+        true,
+      );
+    }
     let mut v: serde_json::Value = serde_json::from_str(&claims).unwrap();
     v["iss"] = serde_json::Value::String("not a did".to_owned());
     expect("iss is not a DID", run(&sign_jwt(&v.to_string(), Some(&kid), None, &method_key(HOLDER, "#auth")), &holder, &base()), false);
